@@ -147,6 +147,24 @@ type readResult struct {
 	panicked bool
 }
 
+// normTxn removes the transaction coordinates from a rendered result (the histories use other coordinates than the single reads).
+func normTxn(x string) string {
+	for _, k := range []string{"transactionTime", "transactionNumber"} {
+		for {
+			i := strings.Index(x, "\""+k+"\":")
+			if i < 0 {
+				break
+			}
+			j := i + len(k) + 3
+			for j < len(x) && x[j] >= '0' && x[j] <= '9' {
+				j++
+			}
+			x = x[:i] + x[j:]
+		}
+	}
+	return x
+}
+
 func c14Read(r *hx.Run, caseID string, p protocol.Protocol, cas *fx.MemCAS, anchor string, alt []string, opts ...txnprovider.Opt) readResult {
 	ver := fx.NewVersion(p, &fx.VersionOpts{CAS: cas, ProviderOpts: opts})
 	var res readResult
@@ -307,7 +325,7 @@ func treeMutations(file string, tree interface{}, uris []string, suffixes []stri
 
 func c14(r *hx.Run) {
 	fx.Quiet()
-	r.Rule = "six valid batch file sets (all four types; creates only; updates only; deactivates only; recover+update; 6 operations) are decoded to JSON trees; every structural mutation at every JSON path of every file (delete, duplicate, swap, null, [], {}, \"\", 0, true, foreign values, every didSuffix reference pointed at every other DID of the batch, every URI retargeted to another file / itself / missing / over-long / empty; thorough: all pairs of mutations on two different files), entries moved between lists, each operation duplicated consistently in every file that references it with the anchor count raised, count skews, every truncation of every compressed file, gzip header/trailer substitutions, uncompressed content, exact size and decompression boundaries per size parameter (also with the excess in a second gzip member), the URI length boundary, an anchor-string grammar, and every subset of failing CAS reads x alternate-source configurations are served to the real OperationProvider: it must return an error or operations satisfying the success invariant (count, distinct suffixes, validated deltas, parseable signed data) and never panic; the listed rejection classes must be errors. Non-trivial: distinct mutated inputs that are rejected plus those accepted with the invariant checked."
+	r.Rule = "six valid batch file sets (all four types; creates only; updates only; deactivates only; recover+update; 6 operations) are decoded to JSON trees; every structural mutation at every JSON path of every file (delete, duplicate, swap, null, [], {}, \"\", 0, true, foreign values, every didSuffix reference pointed at every other DID of the batch, every URI retargeted to another file / itself / missing / over-long / empty; thorough: all pairs of mutations on two different files), entries moved between lists, each operation duplicated consistently in every file that references it with the anchor count raised, count skews, every truncation of every compressed file, gzip header/trailer substitutions, uncompressed content, exact size and decompression boundaries per size parameter (also with the excess in a second gzip member), the URI length boundary, an anchor-string grammar, and every subset of failing CAS reads x alternate-source configurations (none / good / bad+good / failing formatter / bad+partial / bad; and ordered pairs of such transactions on one provider, the second compared with a fresh provider) are served to the real OperationProvider: it must return an error or operations satisfying the success invariant (count, distinct suffixes, validated deltas, parseable signed data) and never panic; the listed rejection classes must be errors. Non-trivial: distinct mutated inputs that are rejected plus those accepted with the invariant checked."
 	p := fx.DefaultProtocol()
 	dids := []*fx.DIDOps{fx.NewDIDOps(fx.Ed25519, fx.SHA256, "a"), fx.NewDIDOps(fx.Ed25519, fx.SHA256, "b"), fx.NewDIDOps(fx.P256, fx.SHA256, "c"),
 		fx.NewDIDOps(fx.Ed25519, fx.SHA256, "d"), fx.NewDIDOps(fx.Ed25519, fx.SHA256, "e"), fx.NewDIDOps(fx.Ed25519, fx.SHA256, "f")}
@@ -769,59 +787,122 @@ func c14(r *hx.Run) {
 			})
 		}
 		// CAS read failures x alternate sources -------------------------------------------
+		// alternate-source modes: 0 none; 1 [good]; 2 [bad, good]; 3 [good] with a failing URI formatter; 4 [bad, part] where
+		// "part" serves the core index file only; 5 [bad]
 		nreads := len(fs.trees)
+		goodFormatter := txnprovider.WithSourceCASURIFormatter(func(uri, source string) (string, error) { return source + ":" + uri, nil })
+		// c14Faults installs the read faults of one transaction on c (k-th distinct primary address fails iff bit k of mask is
+		// set) and returns the transaction's alternate sources
+		c14Faults := func(c *fx.MemCAS, anchor string, mask, altMode int) []string {
+			primary := map[string]int{}
+			c.FailR = func(n int, addr string) bool {
+				if strings.HasPrefix(addr, "alt-good:") || strings.HasPrefix(addr, "alt-part:") {
+					return false
+				}
+				if strings.HasPrefix(addr, "alt-bad:") {
+					return true
+				}
+				k, ok := primary[addr]
+				if !ok {
+					k = len(primary)
+					primary[addr] = k
+				}
+				return mask&(1<<uint(k)) != 0
+			}
+			coreAddr := anchor[strings.Index(anchor, ".")+1:]
+			for ad, b := range c.Data {
+				c.Aliases["alt-good:"+ad] = b
+				if ad == coreAddr {
+					c.Aliases["alt-part:"+ad] = b
+				}
+			}
+			switch altMode {
+			case 1, 3:
+				return []string{"alt-good"}
+			case 2:
+				return []string{"alt-bad", "alt-good"}
+			case 4:
+				return []string{"alt-bad", "alt-part"}
+			case 5:
+				return []string{"alt-bad"}
+			}
+			return nil
+		}
+		type faultCfg struct{ mask, altMode int }
+		single := map[faultCfg]string{} // verdict of a fresh provider, for the two-transaction histories below
 		for mask := 1; mask < 1<<uint(nreads); mask++ {
-			for altMode := 0; altMode < 4; altMode++ {
+			for altMode := 0; altMode < 6; altMode++ {
 				caseID := fmt.Sprintf("%s|faults|mask=%d|alt=%d", fs.name, mask, altMode)
 				if !r.Want(caseID) {
 					continue
 				}
 				c, a := fs.assemble(fs.trees, nil, fs.count)
-				// reads fail by primary address position (k-th distinct primary read)
-				primary := map[string]int{}
-				c.FailR = func(n int, addr string) bool {
-					if strings.HasPrefix(addr, "alt-good:") {
-						return false
-					}
-					if strings.HasPrefix(addr, "alt-bad:") {
-						return true
-					}
-					k, ok := primary[addr]
-					if !ok {
-						k = len(primary)
-						primary[addr] = k
-					}
-					return mask&(1<<uint(k)) != 0
-				}
-				for ad, b := range c.Data {
-					c.Aliases["alt-good:"+ad] = b
-				}
-				var alt []string
+				alt := c14Faults(c, a, mask, altMode)
 				var opts []txnprovider.Opt
-				switch altMode {
-				case 1:
-					alt = []string{"alt-good"}
-				case 2:
-					alt = []string{"alt-bad", "alt-good"}
-				case 3:
-					alt = []string{"alt-good"}
-				}
-				if altMode == 1 || altMode == 2 {
-					opts = append(opts, txnprovider.WithSourceCASURIFormatter(func(uri, source string) (string, error) { return source + ":" + uri, nil }))
-				}
 				if altMode == 3 {
 					opts = append(opts, txnprovider.WithSourceCASURIFormatter(func(uri, source string) (string, error) { return "", fmt.Errorf("formatter error") }))
+				} else if altMode != 0 {
+					opts = append(opts, goodFormatter)
 				}
 				res := c14Read(r, caseID, p, c, a, alt, opts...)
 				r.Nontrivial(caseID)
-				wantOK := altMode == 1 || altMode == 2
+				wantOK := altMode == 1 || altMode == 2 || (altMode == 4 && mask == 1)
 				if wantOK && (res.err != nil || len(res.ops) != fs.count) {
-					r.Violation("alternate-source-not-used", caseID, fmt.Sprintf("reads %b fail on the primary CAS but a good alternate source exists: err=%v", mask, res.err), nil)
+					r.Violation("alternate-source-not-used", caseID, fmt.Sprintf("reads %b fail on the primary CAS but an alternate source (mode %d) serves them: err=%v", mask, altMode, res.err), nil)
 				}
 				if !wantOK && res.err == nil {
 					r.Violation("accepts:missing-file", caseID, fmt.Sprintf("reads %b fail and no alternate source can serve them, yet operations were returned", mask), nil)
 				}
+				if altMode != 3 {
+					single[faultCfg{mask, altMode}] = fmt.Sprintf("ok=%v ops=%s", res.err == nil, mustJSON(res.ops))
+				}
 			}
+		}
+		// two transactions in a row on ONE provider (a node keeps one provider per protocol version): every ordered pair of
+		// (failing reads, alternate sources) configurations; the second transaction must be answered exactly as by a fresh provider
+		var cfgs []faultCfg
+		for mask := 1; mask < 1<<uint(nreads); mask++ {
+			for _, altMode := range []int{0, 1, 2, 4, 5} {
+				if r.Tier != "thorough" && nreads > 3 && mask != 1 && mask != 3 && mask != 1<<uint(nreads)-1 && mask != 1<<uint(nreads-1) {
+					continue // quick: the full mask set for file sets of up to three files, four masks for the larger ones
+				}
+				cfgs = append(cfgs, faultCfg{mask, altMode})
+			}
+		}
+		if len(single) > 0 {
+			hx.ParallelFor(len(cfgs)*len(cfgs), func(i int) {
+				c1, c2 := cfgs[i/len(cfgs)], cfgs[i%len(cfgs)]
+				caseID := fmt.Sprintf("%s|faults2|%d/%d>%d/%d", fs.name, c1.mask, c1.altMode, c2.mask, c2.altMode)
+				if !r.Want(caseID) {
+					return
+				}
+				want, ok := single[c2]
+				if !ok {
+					return
+				}
+				c, a := fs.assemble(fs.trees, nil, fs.count)
+				ver := fx.NewVersion(p, &fx.VersionOpts{CAS: c, ProviderOpts: []txnprovider.Opt{goodFormatter}})
+				var got string
+				func() {
+					defer func() {
+						if pn := recover(); pn != nil {
+							got = fmt.Sprintf("panic: %v", pn)
+							r.Violation("panic:GetTxnOperations:second-transaction", caseID, fmt.Sprintf("one provider, transaction with failing reads %b / alternate mode %d, then transaction with failing reads %b / alternate mode %d: %v", c1.mask, c1.altMode, c2.mask, c2.altMode, pn), nil)
+						}
+					}()
+					alt1 := c14Faults(c, a, c1.mask, c1.altMode)
+					_, _ = ver.Provider.GetTxnOperations(&txn.SidetreeTxn{Namespace: "did:sidetree", AnchorString: a, TransactionTime: 5, TransactionNumber: 1, AlternateSources: alt1})
+					alt2 := c14Faults(c, a, c2.mask, c2.altMode)
+					ops2, err2 := ver.Provider.GetTxnOperations(&txn.SidetreeTxn{Namespace: "did:sidetree", AnchorString: a, TransactionTime: 6, TransactionNumber: 2, AlternateSources: alt2})
+					got = fmt.Sprintf("ok=%v ops=%s", err2 == nil, mustJSON(ops2))
+				}()
+				r.Eval()
+				r.Trans(2)
+				r.Nontrivial(caseID)
+				if !strings.HasPrefix(got, "panic") && normTxn(got) != normTxn(want) {
+					r.Violation("second-transaction-depends-on-first", caseID, fmt.Sprintf("one provider, transaction with failing reads %b / alternate mode %d, then failing reads %b / alternate mode %d: the second is answered differently from a fresh provider\n  fresh : %.300s\n  reused: %.300s", c1.mask, c1.altMode, c2.mask, c2.altMode, want, got), nil)
+				}
+			})
 		}
 		r.Sample(map[string]interface{}{"file_set": fs.name, "files": len(fs.trees), "single_mutations": len(muts)})
 	}
